@@ -186,6 +186,20 @@ def run_sequence(ctx, rng, nops):
                     else:
                         survey.relative_error = val
                     real.append(render(survey))
+                    if isinstance(val, np.ndarray):
+                        # the caller re-uses its array afterwards: the survey
+                        # keeps what was assigned
+                        before = render(survey)
+                        val *= 7.0
+                        if render(survey) != before:
+                            ctx.violation(
+                                'survey-aliases-callers-array',
+                                f'survey.{"noise_floor" if kind == "setnf" else "relative_error"}'
+                                f' = array; array *= 7  changes the survey '
+                                f'without an assignment (array of shape '
+                                f'{val.shape})', {'op': kind,
+                                                  'shape': list(val.shape)})
+                            return None
                 except ValueError:
                     real.append(('error', ''))
             elif kind == 'setstd':
@@ -443,7 +457,7 @@ def suite_misfit(ctx):
     rng = ctx.nprng('misfit')
     bad = []
     lines, exp = [], []
-    n = 12 if ctx.thorough else 4
+    n = 12 if ctx.thorough else 6
     for t in range(n):
         hx = np.ones(4)*500.0
         grid = emg3d.TensorMesh([hx, hx, np.array([400., 300., 300., 200.])],
@@ -452,21 +466,24 @@ def suite_misfit(ctx):
         model = emg3d.Model(grid, res, mapping='Resistivity')
         ns, nr, nf = int(rng.integers(1, 3)), int(rng.integers(2, 4)), \
             int(rng.integers(1, 3))
+        # every third case: weak sources and correspondingly small noise
+        # (standard deviations far below machine epsilon)
+        sc = 1e-6 if t % 3 == 2 else 1.0
         srcs = {f'Tx-{i}': emg3d.TxElectricDipole(
-            (-300.0 + 200*i, 0, -250, 0, 0)) for i in range(ns)}
+            (-300.0 + 200*i, 0, -250, 0, 0), strength=sc) for i in range(ns)}
         recs = {f'Rx-{j}': emg3d.RxElectricPoint(
             (300.0 + 250*j, 0, -300, 0, 0)) for j in range(nr)}
         survey = emg3d.Survey(sources=srcs, receivers=recs,
                               frequencies=[0.5*(k+1) for k in range(nf)])
         form = t % 4
         if form == 0:
-            survey.noise_floor = 1e-13
+            survey.noise_floor = 1e-13*sc
             survey.relative_error = 0.05
         elif form == 1:
-            survey.noise_floor = rng.uniform(1e-14, 1e-12, (ns, nr, nf))
+            survey.noise_floor = rng.uniform(1e-14, 1e-12, (ns, nr, nf))*sc
         elif form == 2:
             survey.relative_error = rng.uniform(0.01, 0.1, (1, nr, 1))
-            survey.noise_floor = 2e-14
+            survey.noise_floor = 2e-14*sc
         with warnings.catch_warnings():
             warnings.simplefilter('ignore')
             sim = emg3d.Simulation(survey=survey, model=model, layered=True,
@@ -480,7 +497,7 @@ def suite_misfit(ctx):
             obs[gaps] = np.nan + 1j*np.nan
             if form == 3:
                 survey.standard_deviation = rng.uniform(
-                    1e-14, 1e-12, (ns, nr, nf))
+                    1e-14, 1e-12, (ns, nr, nf))*sc
             sim.model = emg3d.Model(grid, res*1.1, mapping='Resistivity')
             sim.clean('computed')
             for phase in range(2):
